@@ -288,7 +288,11 @@ class FFCXBackendAccess:
         cellname = ufl.domain.extract_unique_domain(mt.terminal).ufl_cell().cellname
         if cellname in ("tetrahedron", "hexahedron"):
             table = L.Symbol(f"{cellname}_reference_facet_edge_vectors", dtype=L.DataType.REAL)
-            return table[mt.component[0]][mt.component[1]]
+            # The table stacks the edge vectors of all facets: skip the edges
+            # of the facets before the current one
+            facet = self.symbols.entity("facet", mt.restriction)
+            num_facet_edges = {"tetrahedron": 3, "hexahedron": 4}[cellname]
+            return table[facet * num_facet_edges + mt.component[0]][mt.component[1]]
         elif cellname in ("interval", "triangle", "quadrilateral"):
             raise RuntimeError(
                 "The reference cell facet edge vectors doesn't make sense for interval "
